@@ -3,6 +3,7 @@ package rules
 import (
 	"fmt"
 	"go/token"
+	"go/types"
 
 	"golang.org/x/tools/go/ssa"
 
@@ -276,4 +277,104 @@ func ruleNoImpossibleConjunction(c *Ctx) {
 		}
 	}
 	c.R.OK(rule, "blocks-examined", "", fmt.Sprintf("%d blocks of functions that test for NaN examined", n))
+}
+
+func init() {
+	Properties["C05"].Rules = append(Properties["C05"].Rules, Rule{"C05/shadow-copies-independent", ruleShadowCopiesIndependent})
+}
+
+// schemaFieldsIn: the Schema fields read on the way to v.
+func (c *Ctx) schemaFieldsIn(v ssa.Value) map[string]bool {
+	out := map[string]bool{}
+	for _, x := range append(backSlice(v, 16), v) {
+		if fa, ok := x.(*ssa.FieldAddr); ok {
+			if nm := c.fieldName(fa.X.Type(), fa.Field); len(nm) > 7 && nm[:7] == "Schema." {
+				out[nm] = true
+			}
+		}
+		if f, ok := x.(*ssa.Field); ok {
+			if nm := c.fieldName(f.X.Type(), f.Field); len(nm) > 7 && nm[:7] == "Schema." {
+				out[nm] = true
+			}
+		}
+	}
+	return out
+}
+
+// MarshalJSON copies some fields of the schema into the fields of a local struct that shadow them. Whether one is
+// copied depends on that field alone - or on a field it cannot be set together with (Type/Types, Items/ItemsArray:
+// the check run before refuses a schema with both). An `else if` chain over fields that can be set together writes
+// the first and silently drops the rest.
+func ruleShadowCopiesIndependent(c *Ctx) {
+	const rule = "C05/shadow-copies-independent"
+	mar := c.fn("Schema.MarshalJSON")
+	if mar == nil {
+		c.R.Unresolved(rule, "Schema.MarshalJSON")
+		return
+	}
+	// pairs of fields that the checks reachable from MarshalJSON refuse together
+	excl := map[[2]string]bool{}
+	for _, fn := range c.Closure(rule, "MAR").Sorted() {
+		if !c.P.InPkg(fn) || fn.Signature.Results().Len() == 0 || !isErrorType(fn.Signature.Results().At(fn.Signature.Results().Len()-1).Type()) {
+			continue
+		}
+		for _, b := range fn.Blocks {
+			if !blockReturnsErrorDeepLocal(b) || len(b.Instrs) == 0 {
+				continue
+			}
+			fields := map[string]bool{}
+			for _, g := range guardsLocal(b.Instrs[0]) {
+				for f := range c.schemaFieldsIn(g.Cond) {
+					fields[f] = true
+				}
+			}
+			if len(fields) == 2 {
+				ks := sortedKeys(fields)
+				excl[[2]string{ks[0], ks[1]}] = true
+			}
+		}
+	}
+	n := 0
+	core.EachInstr(mar, func(i ssa.Instruction) {
+		st, ok := i.(*ssa.Store)
+		if !ok {
+			return
+		}
+		fa, ok := st.Addr.(*ssa.FieldAddr)
+		if !ok {
+			return
+		}
+		if _, isLocal := fa.X.(*ssa.Alloc); !isLocal || c.isPkgNamed(fa.X.Type(), "Schema") {
+			return
+		}
+		// the shadow struct is a local anonymous struct type; a named helper type (the ordered properties) is built
+		// under the test of the field it wraps
+		if pt, ok := fa.X.Type().Underlying().(*types.Pointer); ok {
+			if _, named := pt.Elem().(*types.Named); named {
+				return
+			}
+		}
+		src := sortedKeys(c.schemaFieldsIn(st.Val))
+		if len(src) != 1 {
+			return
+		}
+		n++
+		var others []string
+		for _, g := range guardsLocal(st) {
+			for f := range c.schemaFieldsIn(g.Cond) {
+				if f == src[0] {
+					continue
+				}
+				pair := [2]string{f, src[0]}
+				if pair[0] > pair[1] {
+					pair[0], pair[1] = pair[1], pair[0]
+				}
+				if !excl[pair] {
+					others = append(others, f)
+				}
+			}
+		}
+		c.R.Check(len(others) == 0, rule, "copy:"+src[0], c.pos(st), "whether the field is copied depends on itself (or on a field it excludes)", fmt.Sprintf("whether %s is written depends on %v, fields it can be set together with: for a schema with both, only the first of the chain is marshaled and the other keyword is silently dropped, so the round-tripped schema accepts instances the original rejects", src[0], others))
+	})
+	c.R.Floor(rule, "conditional copies into the marshal shadow struct", n, 2)
 }
